@@ -159,3 +159,47 @@ Definition load (h : heap) (root : nat) : option result :=
   | None => None
   | Some order => from_params (map (def_of h) order)
   end.
+
+(* ---- ObjectStore (l.569-585) and FromPython.stub (l.1634-1644) ---------------------------- *)
+(* `instantiate` names the object of configuration n by n.  That abstraction rests on the store
+   never holding two objects for one configuration, i.e. on how `stub` consults the store.  The
+   store and `stub` themselves, over an arbitrary type of runtime objects:                     *)
+Section Store.
+  Variable obj : Type.
+  Definition ostore := list (nat * obj).          (* id(config) -> object, latest binding first *)
+
+  Fixpoint retrieve (st : ostore) (n : nat) : option obj :=
+    match st with
+    | [] => None
+    | (m, o) :: st' => if Nat.eqb m n then Some o else retrieve st' n
+    end.
+  Definition add_stub (st : ostore) (n : nat) (o : obj) : ostore := (n, o) :: st.
+
+  (* o = retrieve(id(config)); if o is None: o = config.XPMValue(); add_stub(id(config), o); return o
+     `fresh` = the object config.XPMValue() would make                                        *)
+  Definition stub (fresh : obj) (st : ostore) (n : nat) : ostore * obj :=
+    match retrieve st n with
+    | Some o => (st, o)
+    | None => (add_stub st n fresh, fresh)
+    end.
+
+  (* the variant that asks the cached object for its truth value instead
+     (`o = retrieve(...) or config.XPMValue(); add_stub(id(config), o)`): what Python's `or`
+     does depends on __bool__/__len__ of the object                                           *)
+  Variable truthy : obj -> bool.
+  Definition stub_by_truth (fresh : obj) (st : ostore) (n : nat) : ostore * obj :=
+    match retrieve st n with
+    | Some o => if truthy o then (add_stub st n o, o) else (add_stub st n fresh, fresh)
+    | None => (add_stub st n fresh, fresh)
+    end.
+End Store.
+Arguments retrieve {obj}.
+Arguments add_stub {obj}.
+Arguments stub {obj}.
+Arguments stub_by_truth {obj}.
+
+(* ---- the class of a configuration (plain, container-like, __bool__, equality by content ...)
+   is not an input of anything above: recls f relabels the classes of a heap                 *)
+Definition recls (f : nat -> nat) (nd : node) : node :=
+  {| cls := f (cls nd); fields := fields nd; pre := pre nd; init := init nd; task := task nd;
+     sealed := sealed nd |}.
